@@ -177,8 +177,28 @@ def gretExpected (rows : List (Int × Int)) : String :=
   let mn := counts.foldl min mx
   s!"rows 1 | #{dc.length} #{sum dc} #{counts.length} #{sum counts} #{mx} #{mn}"
 
+/-! `gcte <mode> <nrows> (<k> <v>)×nrows`: a grouping CTE `g` (count, sum, min, max per key) referenced twice, one reference
+    reading `lo`, the other `hi` and `c`; joined on the key: one row (k, min, max, count) per key. -/
+def parseGcte : List String → Option (List (Int × Int))
+  | "gcte" :: _ :: n :: rest => do parsePairs (← n.toNat?) rest
+  | _ => none
+
+def insertStrG (s : String) : List String → List String
+  | [] => [s]
+  | x :: xs => if s < x then s :: x :: xs else x :: insertStrG s xs
+
+def gcteExpected (rows : List (Int × Int)) : String :=
+  let keys := (rows.map (·.1)).eraseDups
+  let lines := keys.map fun k =>
+    let vs := (rows.filter fun r => r.1 == k).map (·.2)
+    let hi := vs.foldl max (vs.headD 0)
+    let lo := vs.foldl min (vs.headD 0)
+    s!"#{k} #{lo} #{hi} #{vs.length}"
+  String.intercalate " | " (s!"rows {lines.length}" :: lines.foldr insertStrG [])
+
 def model (toks : List String) : String :=
   match toks with
+  | "gcte" :: _ => (match parseGcte toks with | some rows => gcteExpected rows | none => "bad-op")
   | "gret" :: _ => (match parseGret toks with | some rows => gretExpected rows | none => "bad-op")
   | "res" :: name :: rest =>
     match parseTy rest, lookupDescs name with
@@ -252,6 +272,13 @@ def parseRowsOut (out : List String) : Option (List Row) :=
 
 def judge (toks : List String) (out : List String) : String :=
   match toks with
+  | "gcte" :: _ =>
+    (match parseGcte toks with
+     | none => "bad unparsable-op"
+     | some rows =>
+       if out == ["panic"] then "bad go-panic"
+       else if String.intercalate " " out == gcteExpected rows then "ok"
+       else s!"bad aggregates-of-a-twice-referenced-grouping-differ want={gcteExpected rows}")
   | "gret" :: _ =>
     (match parseGret toks with
      | none => "bad unparsable-op"
